@@ -594,6 +594,12 @@ class Setters(common.Suite):
             c["natoms"] = max(1, min(c["natoms"], 20))
             if kind == "gc":
                 c["delta"] = rng.choice([1, -1])
+            if kind == "nst" and rng.random() < 0.35:
+                # the external stress is NOT given to the constructor (zero stress), after another simulation of the process
+                # had its stress changed IN PLACE through the public property: defaults are not shared between objects
+                c["S"] = [0.0] * 9
+                c["stresstype"] = "default"
+                c["S_default"] = True
             c = steer(rng, c)
             attr, field = rng.choice(SETTERS[kind])
             c2 = gen_case(rng, kind)
@@ -641,6 +647,12 @@ class Setters(common.Suite):
             crit = mc.moves["default_displacement_move"].criteria
         elif kind == "npt":
             mc = Isobaric(atoms, temperature=case["T"], pressure=case["P"], default_cell_move=CellMove(IsotropicDeformation(0.05)))
+            crit = mc.moves["default_cell_move"].criteria
+        elif kind == "nst" and case.get("S_default"):
+            decoy = Isotension(make_atoms(case, case["cell0"]), temperature=case["T"], pressure=case["P"],
+                               default_cell_move=CellMove(IsotropicDeformation(0.05)))
+            decoy.external_stress += 0.05
+            mc = Isotension(atoms, temperature=case["T"], pressure=case["P"], default_cell_move=CellMove(IsotropicDeformation(0.05)))
             crit = mc.moves["default_cell_move"].criteria
         elif kind == "nst":
             mc = Isotension(atoms, temperature=case["T"], pressure=case["P"], external_stress=np.array(case["S"]).reshape(3, 3),
